@@ -333,14 +333,24 @@ func cmdRun(args []string) int {
 					if mb, merr := os.ReadFile(marker); merr == nil && len(mb) > 4 {
 						l := int(mb[0]) | int(mb[1])<<8 | int(mb[2])<<16 | int(mb[3])<<24
 						if l > 0 && l <= len(mb)-4 {
-							first := "fatal"
-							for _, ln := range strings.Split(eb.String(), "\n") {
-								if strings.HasPrefix(ln, "fatal error:") || strings.HasPrefix(ln, "runtime:") || strings.HasPrefix(ln, "panic:") {
-									first = ln
+							// key: the "fatal error:" / "panic:" line (stable), not the preceding
+							// "runtime: ..." detail line, which carries byte counts that vary per run
+							first := ""
+							for _, pfx := range []string{"fatal error:", "panic:", "runtime:"} {
+								for _, ln := range strings.Split(eb.String(), "\n") {
+									if strings.HasPrefix(ln, pfx) {
+										first = ln
+										break
+									}
+								}
+								if first != "" {
 									break
 								}
 							}
-							ev, _ := json.Marshal(map[string]any{"part": "crash", "key": "fatal-crash:" + first, "msg": "harness process died while evaluating the announced input:\n" + tail(eb.String(), 1500), "input": string(mb[4 : 4+l])})
+							if first == "" {
+								first = "fatal"
+							}
+							ev, _ := json.Marshal(map[string]any{"part": "crash", "key": "fatal-crash:" + first, "msg": "harness process died while evaluating the announced input " + string(mb[4:4+l]) + ":\n" + tail(eb.String(), 1500), "input": string(mb[4 : 4+l])})
 							results[i] = &shardResult{Check: id, Shard: sh, EnumViol: []json.RawMessage{ev}, Incomplete: []string{fmt.Sprintf("shard %d crashed", sh)}}
 							return
 						}
